@@ -1137,7 +1137,10 @@ func main() {
 	ngd := r.N(6, 60)
 	vh.Parallel(ngd, 3, func(i int) { gcDisabledTrial(r, bin, i) })
 	r.Require("gc_disabled_trials", int64(ngd/2))
-	r.Count("cases", nd+nt+nr+nbin+nsig)
+	nl := r.N(16, 64)
+	vh.Parallel(nl, 8, func(i int) { listenTrial(r, bin, i) })
+	r.Require("listen_trials", int64(nl/2))
+	r.Count("cases", nd+nt+nr+nbin+nsig+nl)
 	r.Require("default_trials", int64(nd))
 	r.Require("inproc_table_trials", int64(nt*3/4))
 	r.Require("rate_trials", int64(nr*3/4))
@@ -1146,5 +1149,5 @@ func main() {
 	r.Require("acknowledged_pushes_verified", int64(nsig*5))
 	var _ = json.Marshal
 	var _ = rand.Int
-	r.Finish("(a) SetDefaults on random configurations (each pointer field nil/true/false, numeric fields zero / negative / explicit); (b) in-process behaviour table over all 32 switch combinations x {directory, memory}; (c) the built binary with random (thorough: all) switch combinations x store type x warning lists, probed over loopback HTTP; (d) rate limits 1/2/5/8 with bursts from a fresh address, an interleaved second address, X-Forwarded-For or RemoteAddr, window reset; (e) SIGTERM 5-255 ms into a 3-client push workload, in half of the trials with one more upload whose body straddles the signal, plus SIGTERM the moment the server answers its first request, an upload in flight, layout validation, restart, read-back of every acknowledged push; (f) the collection flags of serve: all 8 combinations of --gc-untagged / --gc-referrer-dangling / --gc-referrer-subject with grace off compared, after observed complete collections, with an in-process server given the equivalent config.Config on a copy of the directory; (g) --gc-frequency negative (documented: collection disabled) with a 150 ms grace period: nothing is collected while the repository idles nor across SIGTERM and restart; a case is one trial, distinct = (part, cell) combinations", "cases", "cells")
+	r.Finish("(a) SetDefaults on random configurations (each pointer field nil/true/false, numeric fields zero / negative / explicit); (b) in-process behaviour table over all 32 switch combinations x {directory, memory}; (c) the built binary with random (thorough: all) switch combinations x store type x warning lists, probed over loopback HTTP; (d) rate limits 1/2/5/8 with bursts from a fresh address, an interleaved second address, X-Forwarded-For or RemoteAddr, window reset; (e) SIGTERM 5-255 ms into a 3-client push workload, in half of the trials with one more upload whose body straddles the signal, plus SIGTERM the moment the server answers its first request, an upload in flight, layout validation, restart, read-back of every acknowledged push; (f) the collection flags of serve: all 8 combinations of --gc-untagged / --gc-referrer-dangling / --gc-referrer-subject with grace off compared, after observed complete collections, with an in-process server given the equivalent config.Config on a copy of the directory; (g) --gc-frequency negative (documented: collection disabled) with a 150 ms grace period: nothing is collected while the repository idles nor across SIGTERM and restart; (h) the listener flags and the command line of the binary: a boolean flag followed by a separate word (must not switch the API on behind the operator's back), --addr with an IPv6 literal bare and bracketed, --tls-cert/--tls-key together (HTTPS, no plain HTTP) and alone (plain HTTP must not be served), SIGTERM while a client holds a request open that it never finishes (the process ends within a bound that does not depend on the client, acknowledged content is served after a restart); a case is one trial, distinct = (part, cell) combinations", "cases", "cells")
 }
